@@ -38,7 +38,7 @@ MANIFEST = dict(
          "C10_roundtrip_def: every well-formed definition (let/fn/dimension/unit/use/struct with all documented decorators) "
          "parses to the statement it denotes. C10_roundtrip_program: any number of statements and definitions separated by "
          "`;` or line breaks with blank lines anywhere between them parse to the list of their meanings. "
-         "C10_precedence: every abstract operator tree rendered with the minimal "
+         "C10_precedence: every abstract operator tree (interpolated strings included) rendered with the minimal "
          "parentheses of the table is read back as itself. C10_parens: redundant parentheses / alternative spellings never "
          "change the result. C10_sound_core + C10_characterised + C10_sound_seq (expressions, plain lets, procedure calls), "
          "C10_sound_type / C10_sound_dexpr (type annotations, on ALL token lists) and C10_sound_statement / C10_full_partial "
